@@ -2,8 +2,8 @@ SPECIFICATION Spec
 CONSTANTS
   MaxIn = 4
   MaxVal = 2
-  MaxOut = 8
-  OffR = 7
+  MaxOut = 7
+  OffR = 6
   Z3Idx = {1, 2, 3, 5, 6, 7}
 INVARIANTS InvWhole InvMiddle InvSum InvCom InvUniform InvShift InvRelabel InvSeparable InvSum3
 CHECK_DEADLOCK FALSE
